@@ -40,6 +40,7 @@ type caseT struct {
 	Mode       int // 0 plain, 1 ctx cancel at attempt CancelAt, 2 MaxElapsed short (give up before first retry), 3 MaxElapsed loose
 	CancelAt   int
 	ElapsedMs  int
+	SlowUs     int // handler duration in microseconds (MaxElapsedTime mode: attempts may straddle the deadline)
 }
 
 type plainCase caseT
@@ -79,10 +80,14 @@ func TestRetryModel(t *testing.T) {
 		r := middleware.Retry{MaxRetries: c.MaxRetries, InitialInterval: initial, MaxInterval: maxInt, Multiplier: c.Mult, RandomizationFactor: c.RF}
 		switch c.Mode {
 		case 1:
-			r.InitialInterval, r.MaxInterval = 300*time.Millisecond, 300*time.Millisecond+time.Duration(c.ExtraMaxUs)*time.Microsecond
-			if c.RF > 0.5 {
-				c.RF /= 2
-				r.RandomizationFactor = c.RF
+			// the handler cancels the message context during attempt CancelAt: no further attempt may follow,
+			// whatever the intervals are (also with a zero interval, where the back-off timer is ready at once)
+			if rapid.Bool().Draw(t, "longIntervalAfterCancel") {
+				r.InitialInterval, r.MaxInterval = 300*time.Millisecond, 300*time.Millisecond+time.Duration(c.ExtraMaxUs)*time.Microsecond
+				if c.RF > 0.5 {
+					c.RF /= 2
+					r.RandomizationFactor = c.RF
+				}
 			}
 			planned := c.MaxRetries + 1
 			if c.Fails >= 0 && c.Fails < planned {
@@ -93,9 +98,8 @@ func TestRetryModel(t *testing.T) {
 				r.InitialInterval, r.MaxInterval = initial, maxInt
 			} else {
 				c.CancelAt = rapid.IntRange(1, planned).Draw(t, "cancelAtAttempt")
-				if c.CancelAt > 1 {
-					// earlier retries must not take 300 ms each: only the interval after the cancel matters
-					// (a retry before the cancel waits the full back-off) -> keep cases cheap
+				if c.CancelAt > 1 && r.InitialInterval >= 300*time.Millisecond {
+					// a retry before the cancel waits the full back-off: keep these cases cheap
 					c.CancelAt = 1 + (c.CancelAt-1)%2
 				}
 			}
@@ -113,6 +117,7 @@ func TestRetryModel(t *testing.T) {
 		case 3:
 			c.ElapsedMs = rapid.IntRange(2, 15).Draw(t, "maxElapsedMs")
 			r.MaxElapsedTime = time.Duration(c.ElapsedMs) * time.Millisecond
+			c.SlowUs = rapid.SampledFrom([]int{0, 0, 500, 2000, 4000}).Draw(t, "handlerDurationUs")
 		}
 		var hooks []hookCall
 		if c.Hook {
@@ -142,6 +147,9 @@ func TestRetryModel(t *testing.T) {
 			}
 			if c.Mode == 1 && n == c.CancelAt {
 				cancel()
+			}
+			if c.SlowUs > 0 {
+				time.Sleep(time.Duration(c.SlowUs) * time.Microsecond)
 			}
 			a.end = time.Now()
 			return a.outs, a.err
@@ -241,6 +249,18 @@ func TestRetryModel(t *testing.T) {
 			for i, a := range atts {
 				if a.start.Sub(atts[0].end) > limit {
 					t.Fatalf("violation: attempt %d started %v after the first failure, MaxElapsedTime is %dms", i+1, a.start.Sub(atts[0].end), c.ElapsedMs)
+				}
+			}
+			// every retry that is made waits at least its back-off, also around the MaxElapsedTime deadline
+			iv := float64(r.InitialInterval)
+			for k := 1; k <= retries; k++ {
+				lo := time.Duration(iv*(1-c.RF)) - time.Microsecond
+				if gap := atts[k].start.Sub(atts[k-1].end); gap < lo-100*time.Microsecond {
+					t.Fatalf("violation: retry %d started %v after the previous attempt, configured back-off is at least %v (MaxElapsedTime %dms, handler takes %dus) (%s)", k, gap, lo, c.ElapsedMs, c.SlowUs, c)
+				}
+				iv *= c.Mult
+				if iv > float64(r.MaxInterval) {
+					iv = float64(r.MaxInterval)
 				}
 			}
 		}
